@@ -1,5 +1,6 @@
 import SFV.Driver.Json
 import SFV.Model.Tdm
+import SFV.Model.TdmNames
 namespace SFV.Drv.Tdm
 open Lean SFV SFV.Drv SFV.Tdm
 
@@ -127,6 +128,16 @@ def handler (op : String) (j : Json) : Option (R Json) :=
       | .ok order => reshapeWith samples modes N.length T order
       | .error _ => reshapeSamples samples modes N T
     pure <| jsamples out
+  | "tdm.parameters" => some do
+    let cfg ← asCfg j
+    let look ← match getArr j "lookups" with
+      | .ok a => a.mapM fun x => do
+          let name ← getStr x "name"
+          let t ← getNat x "t"
+          pure (jopt jint (resolveNamed cfg t name))
+      | .error _ => pure []
+    pure <| Json.mkObj [("dict", jarr ((parametersDict cfg).map fun kv => jarr [Json.str kv.1, intList kv.2])),
+      ("lookups", jarr look)]
   | "tdm.measOrder" => some do
     let rolled ← getCmds j "rolled"
     let circ ← getCmds j "circ"
